@@ -248,6 +248,11 @@ impl<M: GuestAddressSpace> VringState<M> {
     /// Read event from the kick `EventFd`.
     fn read_kick(&self) -> io::Result<bool> {
         if let Some(kick) = &self.kick {
+            #[cfg(feature = "verif-hooks")]
+            vhost::verif::wait_readable(
+                std::os::unix::io::AsRawFd::as_raw_fd(kick),
+                "vring.kick.consume",
+            );
             kick.consume()?;
         }
 
@@ -281,6 +286,8 @@ pub struct VringMutex<M: GuestAddressSpace = GuestMemoryAtomic<GuestMemoryMmap>>
 impl<M: GuestAddressSpace> VringMutex<M> {
     /// Get a mutable guard to the underlying raw `VringState` object.
     fn lock(&self) -> MutexGuard<'_, VringState<M>> {
+        #[cfg(feature = "verif-hooks")]
+        vhost::verif::before_mutex(&self.state, "vring.lock");
         self.state.lock().unwrap()
     }
 }
@@ -301,6 +308,8 @@ impl<M: 'static + GuestAddressSpace> VringT<M> for VringMutex<M> {
     }
 
     fn get_ref(&self) -> <Self as VringStateGuard<'_, M>>::G {
+        #[cfg(feature = "verif-hooks")]
+        vhost::verif::before_mutex(&self.state, "vring.lock");
         self.state.lock().unwrap()
     }
 
@@ -396,6 +405,8 @@ pub struct VringRwLock<M: GuestAddressSpace = GuestMemoryAtomic<GuestMemoryMmap>
 impl<M: GuestAddressSpace> VringRwLock<M> {
     /// Get a mutable guard to the underlying raw `VringState` object.
     fn write_lock(&self) -> RwLockWriteGuard<'_, VringState<M>> {
+        #[cfg(feature = "verif-hooks")]
+        vhost::verif::before_write(&self.state, "vring.write");
         self.state.write().unwrap()
     }
 }
@@ -416,6 +427,8 @@ impl<M: 'static + GuestAddressSpace> VringT<M> for VringRwLock<M> {
     }
 
     fn get_ref(&self) -> <Self as VringStateGuard<'_, M>>::G {
+        #[cfg(feature = "verif-hooks")]
+        vhost::verif::before_read(&self.state, "vring.read");
         self.state.read().unwrap()
     }
 
